@@ -45,6 +45,7 @@ type SemOpts struct {
 	Strict     bool // C15 clauses on printed numbers
 	IgnoreOut  bool // only the outcome class matters (C07)
 	SkipNatlog bool
+	BothStdinEndings bool // C19: run every case with and without a newline after the last input line
 	RunUnspec  bool // also run programs the specification stops judging (status unspec): only crash-freedom is checked
 	SpliceMeta bool // FamPrint: records 1..3 splice the value of record 0 into strings; they must show the text print showed
 	Render     *RenderOpts
@@ -354,8 +355,18 @@ func (c *Ctx) replaySemCLI(path string, o *SemOpts, every int, timeout time.Dura
 				i++
 				f := filepath.Join(c.Work, fmt.Sprintf("cli_%d_%d.bn", w, i%4))
 				os.WriteFile(f, []byte(j.src), 0644)
-				r := c.runCLI([]string{f}, stdinText(j.rec.Stdin), timeout)
+				in := stdinText(j.rec.Stdin)
+				r := c.runCLI([]string{f}, in, timeout)
 				what, detail := compareSemCLI(j.rec, &r, o)
+				if what == "" && o.BothStdinEndings && len(j.rec.Stdin) > 0 && len(j.rec.Stdin[len(j.rec.Stdin)-1]) > 0 {
+					r = c.runCLI([]string{f}, strings.TrimSuffix(in, "\n"), timeout)
+					if what, detail = compareSemCLI(j.rec, &r, o); what != "" {
+						what = "no-final-newline:" + what
+					}
+					mu.Lock()
+					n++
+					mu.Unlock()
+				}
 				mu.Lock()
 				n++
 				if what != "" {
